@@ -146,14 +146,12 @@ Proof. exact option_init_found_spec. Qed.
 Print Assumptions long_value_truncated.
 
 (* witness: purge_delay with <63 spaces>"1x" (65 bytes, malformed) becomes 1 *)
-Definition long_witness : bytes := repeatN 32 63 ++ [49; 120].
-Definition idx_purge_delay : nat := 15.
 Theorem long_value_refuted :
   lenN long_witness = 65 /\ malformed_b false (map toupper long_witness) = true /\
   o_name (tget table0 idx_purge_delay) = [112; 117; 114; 103; 101; 95; 100; 101; 108; 97; 121] /\
   get_via_env idx_purge_delay long_witness = Some (1%Z, INITIALIZED, false) /\
   o_value (tget table0 idx_purge_delay) <> 1%Z.
-Proof. vm_compute. repeat split; discriminate. Qed.
+Proof. exact long_value_refuted_lemma. Qed.
 Print Assumptions long_value_refuted.
 
 (* ---- option table ------------------------------------------------------------------------- *)
@@ -240,7 +238,6 @@ Proof. exact heap_buf_bounded_lemma. Qed.
 Print Assumptions heap_buf_bounded.
 
 (* ---- examples: the hypotheses are satisfiable, concrete values ------------------------------ *)
-Definition B (l : list N) : bytes := l.
 (* "TrUe" -> 1, "off" -> 0, "E" and ";" (fragments accepted before the repair a38bfd4) -> invalid *)
 Example ex_words : parse_value false (map toupper [84; 114; 85; 101]) = PWord 1 /\
                    parse_value false (map toupper [111; 102; 102]) = PWord 0 /\
